@@ -368,6 +368,9 @@ def driver(cinco, prop, seed, n_traces, length):
                             SECRETS[name] = "".join(rng.choice("\u00e9\u00fc\u4e2d\u2603ab") for _ in range(rng.randint(4, 10)))
                         else:
                             SECRETS[name] = bytes(rng.randint(0, 255) for _ in range(rng.randint(4, 20)))
+                        # (names stand for secrets in the specification: two names never share a secret)
+                        while sum(1 for v in SECRETS.values() if v == SECRETS[name]) > 1:
+                            SECRETS[name] = SECRETS[name] + ("." if isinstance(SECRETS[name], str) else b".")
                         mine.append(name)
                         if isinstance(SECRETS[name], bytes) or rng.random() < 0.6:
                             ev = {"op": "Assign", "alg": alg, "p": name}
